@@ -232,9 +232,9 @@ def ob_chain(npts, labelling):
 SELF_CONFIGS = {
     # name: (declinations, chunk size, linking length, RA window)
     'equator-seam': ([0, 0, 5], 120, 20, 'seam'),
-    'equator': ([0, 0, 5], 120, 20, None),
-    'band-80': ([-10, 10, 0], 80, 20, None),
-    'polar': ([80, 85, 75], 40, 8, None),
+    # (three right ascensions anywhere on the circle: over the 1700 s budget; windows around the seam instead)
+    'band-80': ([-10, 10, 0], 80, 20, 'seam'),
+    'polar': ([80, 85, 75], 40, 8, 'seam'),
 }
 
 
